@@ -37,9 +37,12 @@ ContentOf(kind, i) == CASE kind = "seq" -> SeqOf(i) [] kind = "seqattrs" -> SeqO
 AttrOf(kind, i) == IF kind \in {"attrs", "seqattrs"} THEN AttrsOf(i) ELSE <<>>
 
 AllKinds == {"empty", "seq", "choice", "attrs", "seqattrs"}
-Space == {[depth |-> d, own |-> o, order |-> ord, loc |-> lc, homonym |-> h] :
+\* user = "ref_first": the file starts with a type that REFERS to the global element carrying the root base's name
+\* (so that the element is looked up, ahead of its declaration, before any base is)
+Space == {x \in {[depth |-> d, own |-> o, order |-> ord, loc |-> lc, homonym |-> h, user |-> u] :
             d \in 1..MaxDepth, o \in [1..4 -> Kinds], ord \in {"base_first", "derived_first"},
-            lc \in {"near", "far"}, h \in {"none", "before", "after"}}
+            lc \in {"near", "far"}, h \in {"none", "before", "after"}, u \in {"none", "ref_first"}} :
+            x.user = "ref_first" => (x.homonym # "none" /\ x.own[1] = "seqattrs" /\ x.own[2] \in {"seq", "attrs"})}
 \* only the first depth+1 entries of `own` matter: normalise the rest
 Norm(x) == [x EXCEPT !.own = [i \in 1..4 |-> IF i <= x.depth + 1 THEN x.own[i] ELSE "empty"]]
 Cases == {Norm(x) : x \in Space}
@@ -61,9 +64,14 @@ RootWithHomonym(x) == CASE x.homonym = "before" -> <<Homonym(x), TypeItem(x, 1)>
                          [] OTHER -> <<TypeItem(x, 1)>>
 Derived(x) == IF x.order = "base_first" THEN Up(x, 2, x.depth + 1) ELSE Down(x, x.depth + 1, 2)
 
+UserType(x) == [k |-> "complex", n |-> "UserType", base |-> None,
+                content |-> << SeqP(1, "1", << [k |-> "ref", ref |-> [p |-> IF x.loc = "far" THEN "o" ELSE "t", n |-> "AlphaType"], min |-> 1, max |-> "1"] >>) >>,
+                attrs |-> <<>>]
+File1Rest(x) == IF x.loc = "far" THEN Derived(x)
+                ELSE IF x.order = "base_first" THEN RootWithHomonym(x) \o Derived(x) ELSE Derived(x) \o RootWithHomonym(x)
 File1(x) == [name |-> "f1.xsd", kind |-> "xsd", tns |-> "Unear", xmlns |-> << <<"t", "Unear">>, <<"o", "Ufar">> >>,
-             items |-> IF x.loc = "far" THEN << [k |-> "import", ns |-> "Ufar", loc |-> "f2.xsd"] >> \o Derived(x)
-                       ELSE IF x.order = "base_first" THEN RootWithHomonym(x) \o Derived(x) ELSE Derived(x) \o RootWithHomonym(x)]
+             items |-> (IF x.loc = "far" THEN << [k |-> "import", ns |-> "Ufar", loc |-> "f2.xsd"] >> ELSE <<>>)
+                       \o (IF x.user = "ref_first" THEN <<UserType(x)>> ELSE <<>>) \o File1Rest(x)]
 File2(x) == [name |-> "f2.xsd", kind |-> "xsd", tns |-> "Ufar", xmlns |-> << <<"o", "Ufar">> >>,
              items |-> IF x.loc = "far" THEN RootWithHomonym(x) ELSE <<>>]
 SetOf(x) == [files |-> <<File1(x), File2(x)>>, start |-> "f1.xsd"]
@@ -91,7 +99,8 @@ BasePrefix ==
 Emit == PrintT(<<"CASE", ToJson([prop |-> "C08", drv |-> "gen", start |-> "f1.xsd", files |-> SetOf(c).files, shape |-> c])>>)
 
 N(x, p, s) == [xml |-> x, pascal |-> p, snake |-> s]
-Vocab == [names |-> [alphaItem |-> N("alphaItem", "AlphaItem", "alpha_item"),
+Vocab == [names |-> [UserType |-> N("UserType", "UserType", "user_type"),
+                     alphaItem |-> N("alphaItem", "AlphaItem", "alpha_item"),
                      alphaCount |-> N("alphaCount", "AlphaCount", "alpha_count"),
                      alphaLeft |-> N("alphaLeft", "AlphaLeft", "alpha_left"),
                      alphaRight |-> N("alphaRight", "AlphaRight", "alpha_right"),
